@@ -56,6 +56,7 @@ THEOREMS = [
     'C17_facet_check_exact',
     'C17_facet_zero_refuted',
     'C17_fill_array_short_rejected',
+    'C17_fill_array_short_rejected_gen',
     'C17_fill_array_length_exact',
     'C17_fill_array_surplus_3_refuted',
     'C17_imp_unequal_rejected',
@@ -91,7 +92,9 @@ TRUSTED = [
     'literal/complement extraction: the harness hands the model the literals, '
     'complement references and option tokens it generated',
     'float(spelling) and int(float(spelling)) of numeric tokens are computed '
-    'by the harness and handed to the model (tval/tint)',
+    'by the harness and handed to the model (tval/tint); for every token that '
+    'Python\'s int() reads, the generated Coq files check that tint is the '
+    'value the model\'s own reader (py_int) gives (Exec.tok_ok)',
     'harness: generators, fault injector, exception-class mapping',
 ]
 ASSUMPTIONS = [
@@ -770,7 +773,44 @@ def _submit(name, case_type, check_fun, cases):
                         case_type, check_fun, list(cases))
 
 
+UNAVAILABLE = {}     # tie name -> why its implementation-side driver cannot run
+
+
+def _probe(res, name, fun, mandatory):
+    '''Can the implementation-side driver of a function-level tie run on this
+    tree?  A rewrite of the code may rename or remove what the driver reaches
+    for (private attributes, helper methods, constructor signatures).  Then the
+    helper-level tie is skipped and recorded; the same code is still exercised
+    through the public entry point by the deck tie, the corpus and the sweep.
+    If the function is one the property's anchors name, the obligation is
+    reported as undischarged instead (no failing input).'''
+    try:
+        out = fun()
+        gone = out[0] == 'err' and out[2] in ('AttributeError', 'ImportError',
+                                              'ModuleNotFoundError', 'NameError')
+        why = f'{out[2]}: {out[3]}' if gone else ''
+    except (AttributeError, ImportError, NameError, TypeError) as exc:
+        gone, why = True, f'{type(exc).__name__}: {exc}'
+    if not gone:
+        return True
+    UNAVAILABLE[name] = why
+    res.extra.setdefault('skipped', []).append(
+        f'skipped: helper of tie:{name} not present ({why[:120]})')
+    res.count(f'skipped:tie:{name}')
+    if mandatory:
+        res.obligation(f'tie:{name} (function named by the anchors)', False,
+                       f'cannot be called on this tree: {why[:200]}')
+        res.violation('correspondence',
+                      f'tie:{name}: the anchored function cannot be called on '
+                      f'this tree: {why[:200]}',
+                      {'theorem_or_correspondence': 'tie:' + name},
+                      found_input=False)
+    return False
+
+
 def _tie(res, name, case_type, check_fun, cases, metas, describe):
+    if name in UNAVAILABLE:
+        return
     fut = _submit(name, case_type, check_fun, cases)
     _PENDING.append(('tie', name, fut, len(cases), list(metas), describe))
 
@@ -807,34 +847,54 @@ def _flush_ties(res):
                           found_input=False)
 
 
+ANCHORED = [
+    ('t4_geom_convert.main', ['parse_lattice']),
+    ('t4_geom_convert.Kernel.Volume.Lattice',
+     ['parse_ranges', 'LatticeBounds.size', 'squareLatticeReciprocalVecs']),
+    ('t4_geom_convert.Kernel.Transformation.Transformation',
+     ['normalize_transform', 'normalize_matrix', 'get_mcnp_transforms']),
+    ('t4_geom_convert.Kernel.FileHandlers.Parser.ParseMCNPCell',
+     ['ParseMCNPCell.__init__', 'ParseMCNPCell.parse_importance_cards',
+      'ParseMCNPCell.parse_one_cell_worker', 'ParseMCNPCell.to_fillid',
+      'ParseMCNPCell.parse_keywords', 'ParseMCNPCell.parse_fill_kw',
+      'ParseMCNPCell.parse_lat_kw', 'ParseMCNPCell.parse_trcl_kw']),
+    ('MIP.mip.datacard', ['expand_data_card', 'to_float']),
+    ('t4_geom_convert.Kernel.FileHandlers.Parser.ParseMCNPSurface',
+     ['normalize_surface', 'to_surface_mcnp', 'to_surfaces_macro',
+      'to_surfaces_mcnp']),
+    ('t4_geom_convert.Kernel.Surface.MacroBodies', ['check_params_length']),
+    ('t4_geom_convert.Kernel.Surface.ESurfaceTypeMCNP', ['string_to_enum']),
+    ('t4_geom_convert.Kernel.Volume.CellConversion',
+     ['CellConversion.pot_expand_surfs', 'CellConversion.develop_lattice']),
+    ('t4_geom_convert.Kernel.Composition.CompositionConversionMCNPToT4',
+     ['compositionConversionMCNPToT4']),
+]
+
+
 def anchored_functions():
-    '''The validation code of the property's anchors (properties.jsonl).'''
-    from MIP.mip import datacard
-    from t4_geom_convert import main as t4main
-    from t4_geom_convert.Kernel.Composition import \
-        CompositionConversionMCNPToT4 as comp
-    from t4_geom_convert.Kernel.FileHandlers.Parser import ParseMCNPSurface
-    from t4_geom_convert.Kernel.FileHandlers.Parser.ParseMCNPCell import \
-        ParseMCNPCell
-    from t4_geom_convert.Kernel.Surface import ESurfaceTypeMCNP, MacroBodies
-    from t4_geom_convert.Kernel.Transformation import Transformation
-    from t4_geom_convert.Kernel.Volume import Lattice
-    from t4_geom_convert.Kernel.Volume.CellConversion import CellConversion
-    return [t4main.parse_lattice, Lattice.parse_ranges,
-            Lattice.LatticeBounds.size,
-            Lattice.squareLatticeReciprocalVecs,
-            Transformation.normalize_transform, Transformation.normalize_matrix,
-            Transformation.get_mcnp_transforms,
-            ParseMCNPCell.__init__, ParseMCNPCell.parse_importance_cards,
-            ParseMCNPCell.parse_one_cell_worker, ParseMCNPCell.to_fillid,
-            ParseMCNPCell.parse_keywords, ParseMCNPCell.parse_fill_kw,
-            ParseMCNPCell.parse_lat_kw, ParseMCNPCell.parse_trcl_kw,
-            datacard.expand_data_card, datacard.to_float,
-            ParseMCNPSurface.normalize_surface, ParseMCNPSurface.to_surface_mcnp,
-            ParseMCNPSurface.to_surfaces_macro, ParseMCNPSurface.to_surfaces_mcnp,
-            MacroBodies.check_params_length, ESurfaceTypeMCNP.string_to_enum,
-            CellConversion.pot_expand_surfs, CellConversion.develop_lattice,
-            comp.compositionConversionMCNPToT4]
+    '''The validation code of the property's anchors, resolved tolerantly: a
+    name that a rewrite of the code removed or renamed is skipped and reported
+    (coverage is information, never a verdict).  Returns (functions, missing).'''
+    import importlib
+    funcs, missing = [], []
+    for modname, names in ANCHORED:
+        try:
+            mod = importlib.import_module(modname)
+        except Exception:       # pylint: disable=broad-except
+            missing.extend(f'{modname}.{n}' for n in names)
+            continue
+        for name in names:
+            obj = mod
+            for part in name.split('.'):
+                obj = getattr(obj, part, None)
+                if obj is None:
+                    break
+            if obj is None or not hasattr(getattr(obj, '__func__', obj),
+                                          '__code__'):
+                missing.append(f'{modname}.{name}')
+            else:
+                funcs.append(obj)
+    return funcs, missing
 
 
 # lines of the anchored functions that no deck of this property can reach, by
@@ -862,29 +922,58 @@ UNREACHABLE = [
 
 def run(res, tier, seed, proofs_ok):
     '''Everything below runs under a line tracer restricted to the anchored
-    functions: the generated inputs must execute every reachable line.'''
-    import c02_cov
-    cov = c02_cov.LineCov(anchored_functions())
-    with cov:
+    functions (information only: the tracer must never stop the check).'''
+    cov = None
+    try:
+        import c02_cov
+        funcs, gone = anchored_functions()
+        cov = c02_cov.LineCov(funcs)
+        if gone:
+            res.extra.setdefault('line_coverage', []).append(
+                {'skipped: not present in this tree': gone})
+        cov.__enter__()
+    except Exception as exc:    # pylint: disable=broad-except
+        cov = None
+        res.extra.setdefault('line_coverage', []).append(
+            {'coverage tracer not started': repr(exc)})
+    try:
         _run(res, tier, seed, proofs_ok)
-    total, missing = cov.missing(UNREACHABLE)
-    res.obligation(f'coverage: the generated inputs execute every reachable line '
-                   f'of the anchored validation code ({total} lines of '
-                   f'{len(cov.codes)} code objects)', not missing,
-                   f'never executed: {missing[:8]}')
-    res.extra['anchored_lines'] = total
-    if missing:
-        res.violation('harness-error',
-                      'generated inputs no longer reach these lines of the '
-                      f'anchored code: {missing[:10]}',
-                      {'theorem_or_correspondence': 'coverage',
-                       'input': {'lines': [list(m) for m in missing[:40]]}},
-                      found_input=False)
+    finally:
+        if cov is not None:
+            try:
+                cov.__exit__(None, None, None)
+            except Exception:   # pylint: disable=broad-except
+                pass
+    if cov is None:
+        return
+    try:
+        total, missing = cov.missing(UNREACHABLE)
+        res.obligation(f'coverage: the generated inputs execute every '
+                       f'reachable line of the anchored validation code '
+                       f'({total} lines of {len(cov.codes)} code objects)',
+                       not missing, f'never executed: {missing[:8]}')
+        res.extra['anchored_lines'] = total
+    except Exception as exc:    # pylint: disable=broad-except
+        res.extra.setdefault('line_coverage', []).append(
+            {'coverage report failed': repr(exc)})
 
 
 def _run(res, tier, seed, proofs_ok):
     rng = random.Random(seed)
     quick = tier == 'quick'
+    UNAVAILABLE.clear()
+    ok_num = _probe(res, 'num', lambda: ('ok', impl_num_ok('1.5')), False)
+    ok_latopt = _probe(res, 'latopt', lambda: impl_latopt(['1,0:1']), True)
+    ok_ranges = _probe(res, 'ranges', lambda: impl_ranges(['0:1']), True)
+    ok_surface = _probe(res, 'surface', lambda: impl_surface('so', [1.0]), False)
+    ok_normtr = _probe(res, 'normtr', lambda: impl_normtr([0.0, 0.0, 0.0]), True)
+    ok_dims = _probe(res, 'dims', lambda: impl_dims(2, [(0, 1)]), False)
+    ok_facet = _probe(res, 'facet', lambda: impl_facet(2, 1), False)
+    ok_cell = _probe(res, 'cellopts', lambda: impl_cellopts(
+        [], [1.0], 0, None, 'imp:n=1'), False)
+    ok_imp = _probe(res, 'impcards', lambda: impl_impcards(
+        [['imp:n', ['1']]]), False)
+    ok_mat = _probe(res, 'material', lambda: impl_material(['1001', '1']), True)
     res.rule = ('valid decks drawn from 11 features (TR cards, surface TR, '
                 'FILL, FILL transformation, rectangular lattices with array or '
                 '--lattice, TRCL, IMP cards, facets, complements, materials) '
@@ -951,7 +1040,7 @@ def _run(res, tier, seed, proofs_ok):
     _tie(res, 'float', 'string * bool', 'check_float_lit',
          [cpair(cstr(s), cbool(impl_float_ok(s))) for s in floats], floats,
          lambda s: (f'float({s!r})', {'input': {'float': s}}))
-    nums = gen_num_strings(rng, 400 if quick else 4000)
+    nums = gen_num_strings(rng, 400 if quick else 4000) if ok_num else []
     _tie(res, 'num', 'string * bool', 'check_num_lit',
          [cpair(cstr(s), cbool(impl_num_ok(s))) for s in nums], nums,
          lambda s: (f'to_float({s!r})', {'input': {'num': s}}))
@@ -966,7 +1055,7 @@ def _run(res, tier, seed, proofs_ok):
         bad_at = rng.randrange(k) if rng.random() < 0.6 else -1
         opts.append([gen_latopt(rng, bad=(i == bad_at)) for i in range(k)])
     cases, metas = [], []
-    for olist in opts:
+    for olist in (opts if ok_latopt else []):
         out = impl_latopt(olist)
         cases.append(cpair(clist(cstr(o) for o in olist), G.cres(
             out, lambda v: clist(cpair(cz(k), G.cbounds(b)) for k, b in v))))
@@ -997,7 +1086,7 @@ def _run(res, tier, seed, proofs_ok):
         rlists.append([gen_range_string(rng, bad=(i == bad_at))
                        for i in range(k)])
     cases, metas = [], []
-    for rl in rlists:
+    for rl in (rlists if ok_ranges else []):
         out = impl_ranges(rl)
         cases.append(cpair(clist(cstr(o) for o in rl),
                            G.cres(out, G.cbounds)))
@@ -1014,7 +1103,7 @@ def _run(res, tier, seed, proofs_ok):
     for _ in range(300 if quick else 4000):
         scases.append(gen_surface_case(rng))
     cases, metas = [], []
-    for mn, params in scases:
+    for mn, params in (scases if ok_surface else []):
         out = impl_surface(mn, params)
         cases.append(cpair(cpair(cstr(mn), clist(cfloat(v) for v in params)),
                            G.cres(out, lambda v: cpair(cnat(v[0]), cnat(v[1])))))
@@ -1056,7 +1145,7 @@ def _run(res, tier, seed, proofs_ok):
     # ---- 2c. normalize_transform -----------------------------------------
     cases, metas = [], []
     twins = []
-    for _ in range(300 if quick else 3000):
+    for _ in range((300 if quick else 3000) if ok_normtr else 0):
         if twins:
             entries = twins.pop()
         else:
@@ -1090,7 +1179,7 @@ def _run(res, tier, seed, proofs_ok):
                 lo = rng.choice([-1, 0, 0, 2])
                 bounds.append((lo, lo + rng.choice([0, 0, 1, 2])))
             dims_inputs.append((nsurf, bounds))
-    for nsurf, bounds in dims_inputs:
+    for nsurf, bounds in (dims_inputs if ok_dims else []):
         out = impl_dims(nsurf, bounds)
         cases.append(cpair(cpair(cnat(nsurf), G.cbounds(bounds)),
                            G.cres(out, lambda _v: 'tt')))
@@ -1101,7 +1190,7 @@ def _run(res, tier, seed, proofs_ok):
          metas, lambda m: (f'{m[0]} planes, ranges {m[1]} -> {m[2]}',
                            {'input': {'dims': [m[0], m[1]]}}))
     cases, metas = [], []
-    for nt4 in range(1, 9):
+    for nt4 in (range(1, 9) if ok_facet else []):
         for k in range(0, 10):
             out = impl_facet(nt4, k)
             cases.append(cpair(cpair(cnat(nt4), cnat(k)),
@@ -1123,7 +1212,7 @@ def _run(res, tier, seed, proofs_ok):
     fixed_imp = [[['imp:n', ['1', '2ilog', '8']]], [['imp:n', ['1', '2i', '4']]],
                  [['imp:n', ['1', '3m', '2.0+0m']]], [['imp:n', ['1', 'm']]],
                  [['imp:n', ['1', 'log', '4']]]]
-    for _ in range(60 if quick else 600):
+    for _ in range((60 if quick else 600) if ok_imp else 0):
         ncards = rng.choice([0, 1, 1, 2, 2, 3])
         n = rng.randint(1, 6)
         cards = []
@@ -1164,7 +1253,7 @@ def _run(res, tier, seed, proofs_ok):
          'check_impcards', cases, metas,
          lambda m: (f'{m[0]} -> {m[1]}', {'input': {'impcards': m[0]}}))
     cases, metas = [], []
-    for _ in range(60 if quick else 600):
+    for _ in range((60 if quick else 600) if ok_mat else 0):
         toks = G.gen_material(rng)
         how = rng.random()
         if how < 0.4:
@@ -1273,7 +1362,7 @@ def _run(res, tier, seed, proofs_ok):
             lat = [(0, rng.choice([0, 1, 2])) for _ in range(rng.randint(1, 3))]
         cell_metas.append((trs, imps, rng.randint(0, 3), lat,
                            gen_cell_option(rng)))
-    for trs, imps, rank, lat, option in cell_metas:
+    for trs, imps, rank, lat, option in (cell_metas if ok_cell else []):
         out = impl_cellopts(trs, imps, rank, lat, option)
         case = ('(mkCellCase ' + clist(cpair(cz(t), cnat(k)) for t, k in trs)
                 + ' ' + clist(f'(Some {cfloat(v)})' for v in imps)
